@@ -111,7 +111,15 @@ def run(c, facts, tier):
             ok = a is not None and a["k"] == "macro" and a["name"] == "format" and a["args"] and a["args"][0]["k"] == "lit" and re.fullmatch(r"\{(self|\w+):\??#?\??\}|\{:\?\}", a["args"][0]["v"]) is not None
             c.ob("C12.partition", key, "error names the construct", ok, "%s(%s)" % (errctor, src(a) if a else ""), nontrivial=False)
         if enum in UNSUPPORTED and UNSUPPORTED[enum] and not errs and key != "<PositionalOption as TargetScheme>::compile":
-            c.ob("C12.partition", key, "error names the construct", False, "no %s(..) constructed in %s" % (errctor, key))
+            # not written in the function itself (a constructor helper): what the refusing paths return, as the interpreter
+            # computed it, must be the family's error applied to the Debug rendering of the construct
+            erows = [r_ for r_ in (tabs.get(key) or codegen.table(facts, key)) if r_["outcome"].startswith("err:")]
+            pay = []
+            for r_ in erows:
+                x_ = r_["st"].ret.get("x") if isinstance(r_["st"].ret, dict) else None
+                pay.append(emit.canon(x_) if isinstance(x_, dict) else "?")
+            okp = bool(erows) and all(re.fullmatch(re.escape(errctor) + r'\("\{\{:\??#?\?\}\((self|@\d+|\$[\w:|.]+)\)\}"\)', p_) for p_ in pay)
+            c.ob("C12.partition", key, "error names the construct", okp, "refusing paths return %s" % sorted(set(pay))[:3] if erows else "no %s(..) constructed in %s" % (errctor, key), nontrivial=False)
     # the Debug rendering that names the construct: derived (variant name), or hand-written and injective
     for enum in sorted({e for e, _ in FAMILY.values()}):
         d_ = facts.enums.get(enum)
